@@ -425,6 +425,12 @@ func (r *runner) exec(line string) (cont bool) {
 		for {
 			select {
 			case err := <-done:
+				if err != nil && strings.HasPrefix(err.Error(), "panic: ") {
+					// the commit panicked in its goroutine: locks may still be held, the database is abandoned
+					r.res("panic %s", strings.ReplaceAll(err.Error()[7:], " ", "_"))
+					r.poisoned = true
+					return false
+				}
 				extra := ""
 				if f[0] == "commitfail" {
 					extra = fmt.Sprintf(" failed=%s ios=%d", r.failHit, r.ioCount)
